@@ -47,6 +47,12 @@ def prop_order(case):
         src = c.nodes[0]
         l1 = Line(c, Node(c, f'dangsrc{i}', 'buf'), (n, 1))
         l1.remove()
+    if case['origins'][0] % 4 == 0:            # a net with two drivers (wired / tri-state net): a second line into a fork, from a primary input
+        forks2 = [n for n in c.forks.values() if len(n.ins) == 1 and n.ins[0] is not None and not any(n is p for p in b.pi)]
+        if forks2 and b.pi:
+            f2 = forks2[case['origins'][0] // 4 % len(forks2)]
+            drv = b.pi[case['origins'][0] // 64 % len(b.pi)]
+            Line(c, drv, (f2, 1))
     nodes = list(c.nodes)
     N = len(nodes)
     conn_in = {id(n): [l for l in n.ins if l is not None] for n in nodes}
